@@ -224,7 +224,7 @@ std::string Desc::toYaml() const {
       for (auto& kv : n.second) y += "    " + kv.first + ": " + kv.second + "\n";
     }
   }
-  y += "\ncommands:\n";
+  y += cmds.empty() ? "\ncommands: {}\n" : "\ncommands:\n";
   for (auto& c : cmds) {
     y += "  " + yamlQuote(c.name) + ":\n";
     y += "    tool: " + c.tool + "\n";
